@@ -122,6 +122,9 @@ class _Canon(ast.NodeTransformer):
 
     def visit_If(self, node):
         self.generic_visit(node)
+        # N12: a constant test (left by inlining a helper called with a literal flag) selects its branch
+        if isinstance(node.test, ast.Constant) and (isinstance(node.test.value, bool) or node.test.value is None):
+            return (node.body if node.test.value else node.orelse) or [_loc(ast.Pass(), node)]
         # N10: `if c: pass else: X`  ->  `if not c: X`
         if node.orelse and all(isinstance(x, ast.Pass) for x in node.body):
             t = node.test.operand if isinstance(node.test, ast.UnaryOp) and isinstance(node.test.op, ast.Not) else ast.UnaryOp(op=ast.Not(), operand=node.test)
@@ -138,6 +141,29 @@ class _Canon(ast.NodeTransformer):
                 v = _ifexp(node.test, x.value, y.value)
                 if not isinstance(v, ast.IfExp):
                     return _loc(ast.Expr(value=v), node)
+        return node
+
+    @staticmethod
+    def _splice(elts):
+        out = []
+        for x in elts:
+            if isinstance(x, ast.Starred) and isinstance(x.value, (ast.Tuple, ast.List)) and not any(isinstance(y, ast.Starred) for y in x.value.elts):
+                out.extend(x.value.elts)        # N13: `(a, *(b, c))` -> `(a, b, c)`
+            else:
+                out.append(x)
+        return out
+
+    def visit_Tuple(self, node):
+        self.generic_visit(node)
+        if isinstance(node.ctx, ast.Load):
+            node.elts = self._splice(node.elts)
+        return node
+
+    visit_List = visit_Tuple
+
+    def visit_Call(self, node):
+        self.generic_visit(node)
+        node.args = self._splice(node.args)
         return node
 
     def visit_With(self, node):
@@ -251,6 +277,24 @@ class _Rename(ast.NodeTransformer):
     visit_Lambda = visit_FunctionDef
 
 
+class _Beta(ast.NodeTransformer):
+    """`(lambda x, y: E)(a, b)` -> E[x:=a, y:=b] for simple positional lambdas applied to names/constants/attribute chains."""
+
+    def visit_Call(self, n):
+        self.generic_visit(n)
+        f = n.func
+        if isinstance(f, ast.Lambda) and not n.keywords and not (f.args.vararg or f.args.kwarg or f.args.kwonlyargs or f.args.defaults) \
+                and len(n.args) == len(f.args.posonlyargs + f.args.args) \
+                and all(isinstance(a, (ast.Name, ast.Constant)) or (isinstance(a, ast.Attribute) and _pure_expr(a)) for a in n.args):
+            mp = {p.arg: (a.id if isinstance(a, ast.Name) else a) for p, a in zip(f.args.posonlyargs + f.args.args, n.args)}
+            return _loc(_Rename(mp).visit(copy.deepcopy(f.body)), n)
+        return n
+
+
+def _beta(node):
+    return _Beta().visit(node)
+
+
 def _returns(body):
     out = []
     for s in body:
@@ -346,6 +390,15 @@ class Inliner:
             cand = self.m.files[self.rel].clean_funcs.get(name)
             if isinstance(cand, ast.FunctionDef):
                 return cand, None, "module"
+            imp = self.m.files[self.rel].imported.get(name)
+            if imp is not None:
+                # a helper imported from a sibling module (`from .common import _helper`): its body is taken from the defining module
+                for drel in (imp[0] + ".py", imp[0] + "/__init__.py"):
+                    if drel in self.m.files:
+                        cand = self.m.files[drel].clean_funcs.get(imp[1])
+                        if isinstance(cand, ast.FunctionDef):
+                            cand._defrel = drel
+                            return cand, None, "module"
             return None
         if isinstance(f, ast.Attribute):
             name = f.attr
@@ -400,6 +453,8 @@ class Inliner:
                 mapping[p] = v.id
             elif isinstance(v, (ast.Constant, ast.Attribute)) and p not in assigned and not any(isinstance(x, ast.Call) for x in ast.walk(v)):
                 mapping[p] = v
+            elif isinstance(v, ast.Lambda) and p not in assigned:
+                mapping[p] = v                      # a function literal passed as an argument: its call sites are beta-reduced (_beta)
             elif expr_mode and p not in assigned and _pure_expr(v):
                 mapping[p] = v                      # a pure argument can be substituted wherever the parameter is read
             else:
@@ -419,9 +474,6 @@ class Inliner:
         prefix, mapping = b
         body = [copy.deepcopy(s) for s in callee.body if not (isinstance(s, ast.Expr) and isinstance(s.value, ast.Constant) and isinstance(s.value.value, str))]
         body = [s for s in body if not isinstance(s, (ast.Nonlocal,))]
-        if mapping:
-            rn = _Rename(mapping)
-            body = [rn.visit(s) for s in body]
         # no variable capture: names the callee binds itself (its own locals, parameters bound by a prefix assignment) that also occur in
         # the caller are given fresh names; names a closure declares nonlocal/global are the caller's variables and stay
         shared = {n_ for s_ in callee.body for g_ in ast.walk(s_) if isinstance(g_, (ast.Nonlocal, ast.Global)) for n_ in g_.names}
@@ -433,16 +485,22 @@ class Inliner:
         own -= shared
         root = getattr(self, "root", None)
         if root is not None and own:
-            caller_names = {x.id for x in ast.walk(root) if isinstance(x, ast.Name)} | {a_.arg for a_ in ast.walk(root) if isinstance(a_, ast.arg)}
+            inside = {id(x) for x in ast.walk(callee)}        # a closure's own text is not the caller's
+            caller_nodes = [x for x in ast.walk(root) if id(x) not in inside]
+            caller_names = {x.id for x in caller_nodes if isinstance(x, ast.Name)} | {a_.arg for a_ in caller_nodes if isinstance(a_, ast.arg)}
             # the prefix values are caller expressions: evaluate them before renaming can touch them
             # a name the call's result is assigned to is overwritten by the call anyway: the callee may use it as its own
             clash = {n_ for n_ in own if n_ in caller_names and n_ not in keep_names}
 
+            pnames = {a_.arg for a_ in ast.walk(callee.args) if isinstance(a_, ast.arg) and mapping.get(a_.arg) != a_.arg}     # (`self` bound to `self` is the same name)
+
             def sole_binding(tree_stmts, name):
-                b_ = [x for s_ in tree_stmts for x in ast.walk(s_) if isinstance(x, (ast.Assign, ast.AnnAssign, ast.AugAssign, ast.For, ast.With, ast.NamedExpr))
+                b_ = [x for s_ in tree_stmts for x in ast.walk(s_) if id(x) not in inside and isinstance(x, (ast.Assign, ast.AnnAssign, ast.AugAssign, ast.For, ast.With, ast.NamedExpr))
                       and any(isinstance(t_, ast.Name) and t_.id == name and isinstance(t_.ctx, ast.Store) for t_ in ast.walk(x) if not isinstance(t_, ast.Load))]
-                if len(b_) == 1 and isinstance(b_[0], ast.Assign) and len(b_[0].targets) == 1 and isinstance(b_[0].targets[0], ast.Name):
-                    return ast.unparse(b_[0].value)
+                if len(b_) == 1 and isinstance(b_[0], ast.Assign) and len(b_[0].targets) == 1 and isinstance(b_[0].targets[0], ast.Name) \
+                        and all(isinstance(x, (ast.Name, ast.Attribute, ast.Constant, ast.Load)) for x in ast.walk(b_[0].value)) \
+                        and not any(isinstance(x, ast.Name) and x.id in pnames for x in ast.walk(b_[0].value)):
+                    return ast.unparse(b_[0].value)      # only plain reads (`image = self._image`), never calls, never the callee's parameters
                 return None
             # re-executing the caller's own (sole) definition of a name is harmless: `image = self._image` in both
             same_def = {n_ for n_ in clash if sole_binding(body, n_) is not None and sole_binding(root.body, n_) == sole_binding(body, n_)}
@@ -462,10 +520,14 @@ class Inliner:
                 prefix = new_prefix
                 rn2 = _Rename(ren)
                 body = [rn2.visit(s_) for s_ in body]
-        inner = Inliner(self.m, self.rel, self.cls, self.stack + (callee.name,))
+        if mapping:
+            # parameters replaced by the caller's argument expressions only now: the renaming above never touches the caller's names
+            rn = _Rename(mapping)
+            body = [_beta(rn.visit(s)) for s in body]
+        inner = Inliner(self.m, getattr(callee, "_defrel", self.rel), self.cls if not hasattr(callee, "_defrel") else None, self.stack + (callee.name,))
         inner.root = getattr(self, "root", None)
         wrapper = ast.FunctionDef(name=callee.name, args=callee.args, body=prefix + body, decorator_list=[], lineno=callee.lineno, col_offset=0)
-        inner.run(wrapper)
+        inner.run(wrapper, outer=getattr(self, "closures", None))
         self.inlined |= inner.inlined
         return wrapper.body
 
@@ -487,6 +549,7 @@ class Inliner:
                 for h in getattr(s, "handlers", []) or []:
                     collect(h.body)
         collect(fn.body)
+        self.closures = closures
         if getattr(self, "root", None) is None:
             self.root = fn
         # local aliases of methods: `helper = self._helper`, bound once
@@ -540,7 +603,7 @@ class Inliner:
         if r is None:
             return None
         callee, recv, kind = r
-        if not is_artefact(self.rel, callee, nested=(kind == "closure")):
+        if not is_artefact(getattr(callee, "_defrel", self.rel), callee, nested=(kind == "closure")):
             return None
         if any(ast.unparse(d).split(".")[-1] not in ("staticmethod", "classmethod", "no_type_check", "override", "final") for d in callee.decorator_list):
             return None        # a decorated helper is not its body (memoisation, locking, context managers ...): never inlined
@@ -599,22 +662,28 @@ class Inliner:
 
             def visit_Call(t, n):
                 t.generic_visit(n)
+                # a single-expression artefact helper passed as a function value (`map(helper, a, b)`): the equivalent lambda
+                for i_, a_ in enumerate(n.args):
+                    if isinstance(a_, ast.Name) and isinstance(a_.ctx, ast.Load):
+                        c_ = self._candidate(ast.Call(func=a_, args=[], keywords=[]), closures)
+                        if c_ is not None and c_[2] in ("closure", "module"):
+                            ar = c_[0].args
+                            e_ = _single_expr(c_[0])
+                            if e_ is not None and not (ar.vararg or ar.kwarg or ar.kwonlyargs or ar.defaults):
+                                la = ast.arguments(posonlyargs=[], args=[ast.arg(arg=p_.arg) for p_ in ar.posonlyargs + ar.args], kwonlyargs=[], kw_defaults=[], defaults=[])
+                                n.args[i_] = _loc(ast.Lambda(args=la, body=copy.deepcopy(e_)), a_)
+                                self.inlined.add(c_[0].name)
                 c = self._candidate(n, closures)
                 if c is None:
                     return n
                 callee, recv, kind = c
-                real = [x for x in callee.body if not (isinstance(x, ast.Expr) and isinstance(x.value, ast.Constant))]
-                if len(real) > 1 and isinstance(real[-1], ast.Return) and real[-1].value is not None and all(
-                        isinstance(x, (ast.Assign, ast.AnnAssign)) and isinstance(x.targets[0] if isinstance(x, ast.Assign) else x.target, ast.Name) for x in real[:-1]):
-                    from .sem import expand as _expand, is_pure
-                    if all(is_pure(x.value) for x in real[:-1] if getattr(x, "value", None) is not None):
-                        real = [ast.Return(value=_expand(callee, real[-1].value))]
-                if len(real) != 1 or not isinstance(real[0], ast.Return) or real[0].value is None:
+                e = _single_expr(callee)
+                if e is None:
                     return n
                 b = self._bind(callee, n, recv, kind, expr_mode=True)
                 if b is None or b[0]:
                     return n
-                e = copy.deepcopy(real[0].value)
+                e = copy.deepcopy(e)
                 e = _Rename(b[1]).visit(e)
                 self.inlined.add(callee.name)
                 return _loc(e, n)
@@ -625,6 +694,25 @@ class Inliner:
                 setattr(s, f, T().visit(v))
             elif isinstance(v, list):
                 setattr(s, f, [T().visit(x) if isinstance(x, ast.AST) else x for x in v])
+
+
+def _single_expr(callee):
+    """The expression a helper returns when it is, after canonicalisation, `return E` (possibly after pure local definitions, which are
+    substituted), else None."""
+    c = _Canon().visit(copy.deepcopy(callee))
+    _guard_clauses(c)
+    c = _Canon().visit(c)
+    real = [x for x in c.body if not (isinstance(x, ast.Expr) and isinstance(x.value, ast.Constant))]
+    if len(real) > 1 and isinstance(real[-1], ast.Return) and real[-1].value is not None and all(
+            isinstance(x, (ast.Assign, ast.AnnAssign)) and (isinstance(x.targets[0] if isinstance(x, ast.Assign) else x.target, ast.Name) or (
+                isinstance(x, ast.Assign) and len(x.targets) == 1 and isinstance(x.targets[0], ast.Tuple) and all(isinstance(t_, ast.Name) for t_ in x.targets[0].elts))) for x in real[:-1]):
+        from .sem import expand as _expand, is_pure
+        if all(is_pure(x.value) for x in real[:-1] if getattr(x, "value", None) is not None):
+            ast.fix_missing_locations(c)
+            real = [ast.Return(value=_expand(c, real[-1].value))]
+    if len(real) != 1 or not isinstance(real[0], ast.Return) or real[0].value is None:
+        return None
+    return real[0].value
 
 
 def normalize_function(model, rel, fn, owner_cls=None):
